@@ -184,7 +184,7 @@ def _compose(F, subs_polys, N):
     return ptrunc(res, N)
 
 
-def _one_frequency(chk, N, freq, fi):
+def _one_frequency(chk, N, freq, fi, kinds=("partial", "full")):
     psi, clmo, enc = pr.tables(N)
     H, coeffs = _generic_H(N, freq)
     HS[:] = sorted(coeffs, key=str)
@@ -194,7 +194,7 @@ def _one_frequency(chk, N, freq, fi):
     point = SymObj(None, {"linear_modes": freq}, "point")
     tagf = f"freq#{fi}"
     results = {}
-    for kind, modname in (("partial", CL), ("full", NL)):
+    for kind, modname in [km for km in (("partial", CL), ("full", NL)) if km[0] in kinds]:
         ip = Interp(overrides=_bridge(N, clmo, enc), decide=RegionDecider(rep), max_depth=40)
         try:
             out = ip.call_function(modname, "_lie_transform", [point, [a.copy() for a in H_list], psi, clmo, N])
@@ -248,9 +248,9 @@ def _one_frequency(chk, N, freq, fi):
     c0 = f"{CL}::_lie_expansion"
     exps = {}
     for inverse in (False, True):
+        kw = _pipeline_expansion_kwargs(chk, inverse)
         ip = Interp(overrides=_bridge(N, clmo, enc), decide=RegionDecider(rep), max_depth=40)
-        out = ip.call_function(CL, "_lie_expansion", [[to_obj_array(a).copy() for a in poly_G], N, psi, clmo, sp.Integer(-1)],
-                               {"inverse": inverse, "sign": (-1 if inverse else 1), "restrict": False})
+        out = ip.call_function(CL, "_lie_expansion", [[to_obj_array(a).copy() for a in poly_G], N, psi, clmo, sp.Integer(-1)], kw)
         chk.count("functions partially evaluated")
         exps[inverse] = [P(pr.list_to_expr(out[i], clmo)) for i in range(6)]
     Phi, Psi = exps[False], exps[True]
@@ -285,6 +285,44 @@ def _one_frequency(chk, N, freq, fi):
         want = sp.Poly.from_dict(keep, *got.gens, domain=got.domain) if keep else sp.Poly(0, *got.gens, domain=got.domain)
         ok = ok and (got - want).is_zero
     chk.check(ok, "C08.c", f"{CL}::_zero_q1p1", "restriction to the centre manifold does not zero exactly the monomials containing q1 or p1", sample="keep iff k_q1 = k_p1 = 0")
+
+
+PIPE = "hiten.algorithms.hamiltonian.pipeline"
+_KW_CACHE = {}
+
+
+def _pipeline_expansion_kwargs(chk, inverse):
+    """The keyword arguments with which HamiltonianPipeline.get_lie_expansions(inverse=...) calls _lie_expansion.
+
+    The coordinate series examined by C08.b/c are the ones the pipeline hands to its clients (centre-manifold service,
+    maps), so the direction flag, the generator sign and the restriction flag are taken from the pipeline's own call."""
+    if inverse in _KW_CACHE:
+        return dict(_KW_CACHE[inverse])
+    rec = []
+    PG, DEG, PSI, CLMO, TOL = (sp.Symbol(n) for n in ("POLY_G", "DEG", "PSI", "CLMO", "TOL"))
+
+    def stub(ip, a, k):
+        rec.append((list(a), dict(k)))
+        return sp.Symbol("EXPANSIONS")
+
+    gen = SymObj(None, {"poly_G": PG, "degree": DEG, "dynamics": SymObj(None, {"psi": PSI, "clmo": CLMO}, "dynamics")}, "gen_funcs")
+    asked = []
+    mod, cls = ri.find_def(PIPE, "HamiltonianPipeline")
+    from ..kpe import ClassRef
+    pipe = SymObj(ClassRef(mod, cls), {"get_generating_functions": lambda kind, **kw: (asked.append(kind), gen)[1]}, "pipeline")
+    ip = Interp(overrides={"_lie_expansion": stub})
+    out = ip.apply(ip.getattr(pipe, "get_lie_expansions"), [], {"inverse": inverse, "tol": TOL})
+    chk.count("functions partially evaluated")
+    c0 = f"{PIPE}::HamiltonianPipeline.get_lie_expansions[inverse={inverse}]"
+    ok = len(rec) == 1 and out == sp.Symbol("EXPANSIONS") and asked == ["partial"]
+    a, k = rec[0] if rec else ([], {})
+    ok = ok and a[:4] == [PG, DEG, PSI, CLMO] and (a[4] if len(a) > 4 else k.get("tol")) == TOL
+    chk.check(ok, "C08.d", c0 + "[forwarding]",
+              f"get_lie_expansions does not hand the partial generating functions, their degree/tables and tol to _lie_expansion and return its result: asked {asked}, args {a}, kwargs {k}",
+              sample="(poly_G, degree, psi, clmo, tol) of the 'partial' generating functions -> _lie_expansion -> returned")
+    kw = {kk: vv for kk, vv in k.items() if kk != "tol"}
+    _KW_CACHE[inverse] = kw
+    return dict(kw)
 
 
 def _d_truncation_counts(chk):
